@@ -286,6 +286,14 @@ def run_sequence(kind, ops, res: CaseResult):
                 if op.get('raises'):
                     raise Boom(my_uid)
                 return value
+            if i % 3 == 1:
+                # the loop-binding idiom: a computer all of whose parameters have defaults (it is still called without arguments)
+                def computer(_value=value, _raises=op.get('raises'), *_more, **_kw):      # noqa: F811
+                    calls.append(1)
+                    if _raises:
+                        raise Boom(my_uid)
+                    return _value
+                res.count('computers_with_optional_parameters')
             force = bool(op.get('force'))
             try:
                 got = c.get_or_compute(op['key'], computer, force=force) if force else c.get_or_compute(op['key'], computer)
